@@ -369,10 +369,57 @@ class Gen:
         while items:
             k = r.choice([1, 2, 3])
             chunk, items = items[:k], items[k:]
-            pos = r.randrange(len(stmts) + 1)
-            stmts.insert(pos, {"k": "data", "items": [c[2] for c in chunk], "values": chunk})
-        # DATA order must follow program order of the READs: keep the chunks in order
-        order = [s for s in stmts if s["k"] == "data"]
+            target = stmts
+            if r.random() < 0.25:
+                # inside a block (it still belongs to the module's data, whether or not the block runs)
+                lists = []
+
+                def walk(ss):
+                    for st in ss:
+                        kk = st["k"]
+                        if kk == "if":
+                            for _, body in st["arms"]:
+                                lists.append(body)
+                                walk(body)
+                            if st.get("else") is not None:
+                                lists.append(st["else"])
+                                walk(st["else"])
+                        elif kk == "select":
+                            for _, body in st["cases"]:
+                                lists.append(body)
+                                walk(body)
+                            if st.get("else") is not None:
+                                lists.append(st["else"])
+                                walk(st["else"])
+                        elif kk in ("for", "while", "do"):
+                            lists.append(st["body"])
+                            walk(st["body"])
+                walk(stmts)
+                if lists:
+                    target = r.choice(lists)
+            pos = r.randrange(len(target) + 1)
+            target.insert(pos, {"k": "data", "items": [c[2] for c in chunk], "values": chunk})
+        # DATA order must follow program order of the READs: keep the chunks in text order
+        order = []
+
+        def collect(ss):
+            for st in ss:
+                kk = st["k"]
+                if kk == "data":
+                    order.append(st)
+                elif kk == "if":
+                    for _, body in st["arms"]:
+                        collect(body)
+                    if st.get("else") is not None:
+                        collect(st["else"])
+                elif kk == "select":
+                    for _, body in st["cases"]:
+                        collect(body)
+                    if st.get("else") is not None:
+                        collect(st["else"])
+                elif kk in ("for", "while", "do"):
+                    collect(st["body"])
+        collect(stmts)
         vals = [v for s in order for v in s["values"]]
         if vals != self.data_items:
             # re-assign values in textual order
